@@ -1,4 +1,5 @@
-import AsherahVerif.Driver.Loop
-/- model driver executable of engine `envelope` (stub until the engine is built) -/
+import AsherahVerif.Driver.Envelope
+open AsherahVerif.Driver
+
 def main (_args : List String) : IO UInt32 := do
-  IO.eprintln "engine envelope: not built yet"; return 2
+  runEngine EnvEngine.engine; return 0
